@@ -6,6 +6,7 @@ import AlgopyVerif.Model.Dtype
 import AlgopyVerif.Model.Heap
 import AlgopyVerif.Model.Interp
 import AlgopyVerif.Model.Convert
+import AlgopyVerif.Model.NthDeriv
 import Lean.Data.Json
 /-!
 # Request dispatch of the model driver (JSON codec + operation table)
@@ -293,6 +294,49 @@ def handleInterp (j : Json) : Except String Json := do
     pure (Json.mkObj [("r", toJson (Interp.toPos i.toList).toArray)])
   | _ => throw s!"bad-what {what}"
 
+/-- closed-form n-th derivatives: `{"op":"nth","fn":…,"n":k,"x":"p/q","leaves":[…],"m":nat}` -/
+def handleNth (j : Json) : Except String Json := do
+  let fn ← j.getObjValAs? String "fn"
+  let n ← j.getObjValAs? Nat "n"
+  let xs ← j.getObjValAs? String "x"
+  let x ← match parseRat xs with | some v => pure v | none => throw "bad x"
+  let ls ← j.getObjValAs? (Array String) "leaves"
+  let lv ← ls.toList.mapM fun s => match parseRat s with | some v => pure v | none => throw "bad leaf"
+  let m := (j.getObjValAs? Nat "m").toOption.getD 0
+  let l (i : Nat) : Rat := lv.getD i 0
+  let r : Rat ← match fn with
+    | "exp" => pure (dExp (l 0) n)
+    | "exp2" => pure (dExp2 (l 0) (l 1) n)
+    | "expm1" => pure (dExpm1 (l 0) (l 1) n)
+    | "log" => pure (dLog (l 0) x n)
+    | "logb" => pure (dLogb (l 0) (l 1) x n)
+    | "log1p" => pure (dLog1p (l 0) x n)
+    | "sqrt" => pure (dSqrt (l 0) x n)
+    | "square" => pure (dSquare x n)
+    | "negative" => pure (dNegative x n)
+    | "reciprocal" => pure (dReciprocal x n)
+    | "sin" => pure (dSin (l 0) (l 1) n)
+    | "cos" => pure (dCos (l 0) (l 1) n)
+    | "sinh" => pure (dSinh (l 0) (l 1) n)
+    | "cosh" => pure (dCosh (l 0) (l 1) n)
+    | "arctanh" => pure (dArctanh (l 0) x n)
+    | "step" => pure (dStep (l 0) n)
+    | "absolute" => pure (dAbsolute (l 0) (l 1) n)
+    | "clip" => pure (dClip (l 0) (l 1) n)
+    | "gammaln" => pure (dGammaln (l 0) (lv.drop 1) n)
+    | "psi" => pure (dPsi lv n)
+    | "polygamma" => pure (dPolygamma m lv n)
+    | "hyperu" => pure (dHyperu (l 0) (lv.drop 1) n)
+    | "erf" => pure (dErf (l 0) (l 1) x n)
+    | "erfi" => pure (dErfi (l 0) (l 1) x n)
+    | "arctan" => pure (dArctanQ (l 0) x n)
+    | "arcsin" => pure (dArcsinQ (l 0) x (l 1) n)
+    | "arccos" => pure (if n = 0 then l 0 else -(dArcsinQ 0 x (l 1) n))
+    | "arcsinh" => pure (dArcsinhQ (l 0) x (l 1) n)
+    | "arccosh" => pure (dArccoshQ (l 0) x (l 1) n)
+    | _ => throw s!"bad-fn {fn}"
+  pure (Json.mkObj [("r", Json.str (showRat r))])
+
 def handlePiv (j : Json) : Except String Json := do
   let piv ← j.getObjValAs? (Array Nat) "piv"
   let N := piv.size
@@ -301,6 +345,7 @@ def handlePiv (j : Json) : Except String Json := do
     ("det", toJson (piv2detF piv.toList))])
 
 def handle (j : Json) : Except String Json := do
+  if (j.getObjValAs? String "op").toOption == some "nth" then return (← handleNth j)
   if (j.getObjValAs? String "op").toOption == some "piv" then return (← handlePiv j)
   if (j.getObjValAs? String "op").toOption == some "interp" then return (← handleInterp j)
   if (j.getObjValAs? String "op").toOption == some "dtype" then return (← handleDtype j)
